@@ -7,7 +7,7 @@
 From Coq Require Import List NArith ZArith Bool Lia Permutation Btauto.
 From ApiFu Require Import Base.Sexp Fut.Plan Fut.Future Fut.ExecAsync Fut.ExecSync Fut.Denote Fut.SubPerm
      Fut.Live Fut.LiveFacts Fut.Acct Fut.AsyncWrap Fut.AsyncField Fut.AsyncList Fut.AsyncSel Fut.AsyncMain
-     Fut.AsyncRun Fut.AsyncSerial Fut.SyncProofs Fut.FutSpec Fut.VisibleProofs.
+     Fut.AsyncRun Fut.AsyncSerial Fut.SyncProofs Fut.FutSpec Fut.VisibleProofs Fut.SyncMust.
 Import ListNotations.
 
 (** ** 1. [strip] is invisible to the declarative reading and to the reference *)
@@ -743,4 +743,24 @@ Theorem run_never_stuck md sigma fuel jfuel root :
 Proof.
   intros Fa Hf Hj. destruct (run_conforms md sigma fuel jfuel root Fa Hf Hj) as (r & E & _).
   rewrite E. split; discriminate.
+Qed.
+
+(** ** against the reference itself: under the exclusion, every run reports for every visible
+    failure-null exactly the error the synchronous reference reports for it *)
+Theorem same_error_as_reference md sigma fuel jfuel root :
+  excl_admissible_error_differs root = false ->
+  fair sigma -> count_async root <= fuel -> resp_depth root < jfuel ->
+  exists r, run FX sigma md fuel jfuel root = Done r /\
+    r_data r = sr_data (run_sync root) /\
+    forall x, In x (visible_nulls root) ->
+      exists e, snd x = [e] /\ In e (r_errors r) /\ In e (sr_errors (run_sync root)).
+Proof.
+  intros Ex Fa Hf Hj. destruct (run_conforms md sigma fuel jfuel root Fa Hf Hj) as (r & E & C & _).
+  exists r. split; auto. split; [apply (cf_data _ _ _ C)|]. intros x Hx.
+  unfold excl_admissible_error_differs in Ex. apply negb_false_iff in Ex.
+  destruct (single_candidate_at root x Ex Hx) as [e Se]. exists e. split; auto.
+  pose proof (cf_nulls _ _ _ C) as N1. pose proof (cf_nulls _ _ _ (run_sync_conforms root)) as N2.
+  rewrite Forall_forall in N1, N2.
+  destruct (N1 x Hx) as (a & Ia & La). destruct (N2 x Hx) as (b & Ib & Lb).
+  unfold lands in *. rewrite Se in La, Lb. destruct La as [<-|[]]. destruct Lb as [<-|[]]. auto.
 Qed.
